@@ -727,4 +727,52 @@ theorem sub_self_eq_smul_zero (s : Space ℝ) (x : El 𝕜) (hx : Shaped s x) :
       congr 1; funext k
       exact ih k (xs k) (hx k)
 
+/-- total boundary factor of one axis: `n - 2 + fl + fr` for `n ≥ 2` nodes -/
+noncomputable def axisTotal (a : Axis ℝ) : ℝ := (a.n : ℝ) - 2 + a.fl + a.fr
+
+/-- the same with the fractions the code actually applies: a side whose fraction passes
+`np.isclose(frac, 1.0)` is not scaled (factor 1) -/
+noncomputable def axisTotalTol (close1 : ℝ → Bool) (a : Axis ℝ) : ℝ :=
+  (a.n : ℝ) - 2 + (if close1 a.fl then 1 else a.fl) + (if close1 a.fr then 1 else a.fr)
+
+/-- `close1` only fires within `ε` of 1 (`np.isclose`: `ε = 1e-5 + 1e-8`) -/
+def Tol (close1 : ℝ → Bool) (ε : ℝ) : Prop := ∀ r, close1 r = true → |r - 1| ≤ ε
+
+theorem sideFac_effective (close1 : ℝ → Bool) (a : Axis ℝ) (k : Nat) :
+    sideFac close1 (fun f => f) a k =
+      sideFac (fun _ => false) (fun f => f)
+        ⟨a.n, if close1 a.fl then 1 else a.fl, if close1 a.fr then 1 else a.fr⟩ k := by
+  unfold sideFac
+  by_cases h1 : close1 a.fl = true <;> by_cases h2 : close1 a.fr = true <;> simp [h1, h2]
+
+theorem sideFac_sum_tol (close1 : ℝ → Bool) (a : Axis ℝ) (hn : 2 ≤ a.n) :
+    ∑ k ∈ range a.n, sideFac close1 (fun f => f) a k = axisTotalTol close1 a := by
+  simp only [sideFac_effective close1 a]
+  exact sideFac_sum (fun _ => false) (fun r h => by simp at h)
+    ⟨a.n, if close1 a.fl then 1 else a.fl, if close1 a.fr then 1 else a.fr⟩ hn
+
+theorem axisTotalTol_close (close1 : ℝ → Bool) (ε : ℝ) (hε : 0 ≤ ε) (ht : Tol close1 ε)
+    (a : Axis ℝ) : |axisTotalTol close1 a - axisTotal a| ≤ 2 * ε := by
+  have e : axisTotalTol close1 a - axisTotal a =
+      ((if close1 a.fl then 1 else a.fl) - a.fl) + ((if close1 a.fr then 1 else a.fr) - a.fr) := by
+    unfold axisTotalTol axisTotal; ring
+  have b1 : |(if close1 a.fl then 1 else a.fl) - a.fl| ≤ ε := by
+    split_ifs with h
+    · rw [abs_sub_comm]; exact ht _ h
+    · simpa using hε
+  have b2 : |(if close1 a.fr then 1 else a.fr) - a.fr| ≤ ε := by
+    split_ifs with h
+    · rw [abs_sub_comm]; exact ht _ h
+    · simpa using hε
+  rw [e]
+  exact (abs_add_le _ _).trans (by linarith)
+
+theorem bfac_total (close1 : ℝ → Bool) (hc : Ideal close1) (axes : List (Axis ℝ))
+    (hn : ∀ a ∈ axes, 2 ≤ a.n) :
+    ∑ i ∈ range (axesSize axes), bfac close1 (fun f => f) axes i =
+      (axes.map axisTotal).prod := by
+  rw [bfac_sum]
+  congr 1
+  refine List.map_congr_left (fun a ha => ?_)
+  exact sideFac_sum close1 hc a (hn a ha)
 end OdlModel.C02
